@@ -75,6 +75,14 @@ def extract():
     c["opaque_bypasses_table"] = bool(m)
     if "func readKeys(" not in s:
         raise RuntimeError("readKeys no longer found in " + rel)
+    m = re.search(r"defaultCache\s*=\s*make\(map\[(\w+)\]any\)", s)
+    if not m:
+        raise RuntimeError("defaultCache no longer found in " + rel)
+    if m.group(1) == "string":
+        c["default_memo_per_reading"] = False
+    else:
+        mm = re.search(r"%s struct \{([^}]*)\}" % re.escape(m.group(1)), s)
+        c["default_memo_per_reading"] = bool(mm and re.search(r"\bbool\b", mm.group(1)) and re.search(r"\bstring\b", mm.group(1)))
     rel = "core/mapping/jsonunmarshaler.go"
     s = _read(rel)
     c["jsonTagKey"] = _str_const(s, "jsonTagKey", rel)
@@ -142,6 +150,8 @@ def regen():
         "Definition gen_opaque_bypasses_table : bool := %s." % b(c["opaque_bypasses_table"]),
         "(* the struct-required memo is keyed by (tag key, type) *)",
         "Definition gen_required_memo_per_tag : bool := %s." % b(c["required_memo_per_tag"]),
+        "(* the memo of parsed slice defaults is keyed by (read as segments / as JSON, text) *)",
+        "Definition gen_default_memo_per_reading : bool := %s." % b(c["default_memo_per_reading"]),
         "(* rest/httpx.Parse: the passes in source order; the validator comes after the last one *)",
         "Definition gen_parse_order : list string := %s." % clist([cstr(x) for x in c["parse_order"]]),
         "Definition gen_validator_after_passes : bool := %s." % b(c["validator_after_passes"]),
